@@ -3331,7 +3331,11 @@ static Token *function(Token *tok, Type *basety, VarAttr *attr) {
     fn->is_inline = attr->is_inline;
   }
 
-  fn->is_root = !(fn->is_static && fn->is_inline);
+  // Everything but a static inline function is emitted unconditionally.
+  // A static inline function may already be a root because it was
+  // referred to at file scope; a redeclaration must not undo that.
+  if (!(fn->is_static && fn->is_inline))
+    fn->is_root = true;
 
   if (consume(&tok, tok, ";"))
     return tok;
